@@ -34,12 +34,16 @@ package asa
 //vc:  ensures[C09] accepted == old(accepted) + 1
 
 //vc:func (*State).checkDeviceName
+//vc:  requires[C11] @notInConfMode !confMode
+//vc:  ensures[C11] @leavesConfMode !confMode
 //vc:  set nameChecked = true
 //vc:  set checkedName = name
 //vc:  ensures[C06] @reportedNameEqualsExpected name == strings.TrimSuffix(lastOutput, "\n")
 //vc:  ensures[C06] nameChecked && checkedName == name
 
 //vc:func (*State).LoadDevice
+//vc:  requires[C11] @notInConfMode !confMode
+//vc:  ensures[C11] @leavesConfMode !confMode
 //vc:  requires[C06] !nameChecked
 //vc:  ensures[C06] @hostnameVerified err == nil ==> nameChecked && checkedName == path.Base(spocFile)
 //vc:  ensures[C06] @missingBannerRecorded err == nil ==> (markerMissing ==> len(s.State.errUnmanaged) > 0)
